@@ -73,7 +73,7 @@ stats = dict(pixels_compared=0, ambiguous_pixels_excluded=0, exact_runs=0, toler
 # ---------------------------------------------------------------------------
 # element pairs of a frame
 # ---------------------------------------------------------------------------
-def pairs_for(nel, mode):
+def pairs_for(nel, mode, index_dtype=None):
     if mode.startswith("fmc"):
         tx, rx = arim.ut.fmc(nel)
     elif mode.startswith("hmcrev"):
@@ -89,7 +89,11 @@ def pairs_for(nel, mode):
         k = int(rng.integers(1, len(allp) + 1))
         idx = rng.choice(len(allp), size=k, replace=False)
         tx = np.array([allp[i][0] for i in idx]); rx = np.array([allp[i][1] for i in idx])
-    tx = np.asarray(tx).astype(np.int64); rx = np.asarray(rx).astype(np.int64)
+    # element indices as stored by acquisition files: any integer dtype that can hold them
+    fits = [d for d in (np.int8, np.uint8, np.int16, np.uint16, np.int32, np.int64) if nel - 1 <= np.iinfo(d).max]
+    idt = index_dtype or (fits[int(rng.integers(0, len(fits)))] if rng.random() < 0.5 else np.int64)
+    chk.count(index_dtype=np.dtype(idt).name)
+    tx = np.asarray(tx).astype(idt); rx = np.asarray(rx).astype(idt)
     if mode.endswith("perm"):
         p = rng.permutation(len(tx))
         tx, rx = tx[p], rx[p]
@@ -928,10 +932,13 @@ n_i2 = 30 if Q else 300
 for i in range(n_i2):
     exact = i % 2 == 0
     nel = int(rng.integers(1, 6)) if not exact else None
+    if not exact and i % 10 == 1:
+        nel = int(rng.integers(17, 22))          # more elements than sqrt(256): pair codes overflow 8-bit indices
     case = gen_contact_exact(mode="fmc", symmetric=True, bits=pick_bits()) if exact else \
         gen_contact_random(mode="fmc", symmetric=True, bits=(pick_bits()[0], 64), nel=nel)
     nel = case["nel"]
-    txh, rxh = pairs_for(nel, ["hmc", "hmc", "hmc-perm", "hmcrev", "halfmixed-perm"][int(rng.integers(0, 5))])
+    txh, rxh = pairs_for(nel, ["hmc", "hmc", "hmc-perm", "hmcrev", "halfmixed-perm"][int(rng.integers(0, 5))],
+                         index_dtype=(np.int8, np.uint8)[i % 4 // 2] if nel >= 17 else None)
     lo = np.minimum(case["tx"], case["rx"]); hi = np.maximum(case["tx"], case["rx"])
     # the HMC data = the FMC timetraces of the same unordered pair
     index = {(int(a), int(b)): k for k, (a, b) in enumerate(zip(case["tx"], case["rx"]))}
